@@ -42,6 +42,8 @@ type Sched struct {
 	Trace       []string
 	PointHits   map[string]int
 	OnRelease   func(name, point string)
+	// Fair: never advance the clock while a task is parked (used once liveness is being measured)
+	Fair func() bool
 }
 
 func NewSched(rc *RunCtx, quanta ...time.Duration) *Sched {
@@ -130,7 +132,11 @@ func (s *Sched) Run(maxSteps int) bool {
 		n := len(list)
 		c := n
 		if n > 0 {
-			c = s.rc.T.Choose(n + 1)
+			if s.Fair != nil && s.Fair() {
+				c = s.rc.T.Choose(n)
+			} else {
+				c = s.rc.T.Choose(n + 1)
+			}
 		}
 		if c == n {
 			q := s.Quanta[s.rc.T.Choose(len(s.Quanta))]
